@@ -515,6 +515,20 @@ package mcp
 //@   ensures @peer-error-is-returned !closing && callResult(ctxErr, 1, 0) == nil && awaitErr != nil ==> $result != nil && errIs($result, awaitErr)
 //@   ensures @success !closing && callResult(ctxErr, 1, 0) == nil && awaitErr == nil ==> $result == nil
 
+// cancelCall (the subscriptions/listen canceller and the blockingcancelnotify path): the abandoned call is retired
+// whether or not the notice could be delivered - a call left registered would keep the connection from ever becoming
+// idle, and Close/Wait would never return once writes have started failing. The notice is bounded and detached.
+//@ func cancelCall [C04, C05, C01]
+//@   requires conn != nil && call != nil
+//@   track context.WithoutCancel as detach
+//@   track context.WithTimeout as bound
+//@   track Notify as notify
+//@   track Retire as retire
+//@   modifies *
+//@   assert at call context.WithTimeout: @bounded-and-detached $0 == callResult(detach, 1, 0) && $1 == notifyCancellationTimeout && callArg(detach, 1, 0) == ctx
+//@   assert at call Notify: @notice-uses-bounded-context $0 == conn && $1 == callResult(bound, 1, 0) && $2 == notificationCancelled
+//@   ensures @the-call-is-retired-even-if-the-notice-fails calls(retire) == 1 && callArg(retire, 1, 0) == conn && callArg(retire, 1, 1) == call
+//@   ensures @one-notice calls(notify) == 1 && result == callResult(notify, 1, 0)
 // The best-effort cancellation notice: sent with the caller's values but not its cancellation, bounded by the
 // notification timeout, referencing exactly the abandoned call.
 //@ func call$1 [C04, C10]
